@@ -11,6 +11,11 @@
 (*   [kind |-> "rows", rows |-> k]  or  [kind |-> "hf", footer |-> BOOLEAN] *)
 (*   header = first field starts with "H"; footer = first field "F".        *)
 (* Columns: [idx, li (line_index, 0 = unset), lp (line_pattern: "" | "F")]. *)
+(* decl.pre = TRUE puts one more declaration in front: header "H" through   *)
+(* footer "F", min 0, max 1, same columns.  Its look-ahead for the footer   *)
+(* may run to the end of input and fail; the lines it buffered (and whose   *)
+(* text the reader cached for pattern matching) then belong to the repeated *)
+(* declaration.                                                            *)
 (*                                                                         *)
 (* Impl mirrors the csv2 reader: `records` is ONE flat slice of fields of  *)
 (* all buffered lines, a buffered line is [start, num] into it, and        *)
@@ -49,13 +54,30 @@ RefRecs(ls, decl, cols) ==
                           r == RefRecs(SubSeq(ls, n + 1, Len(ls)), decl, cols)
                       IN [recs |-> <<RefCols(SubSeq(ls, 1, n), cols)>> \o r.recs, end |-> r.end]
 
-Ref(lines, decl, cols) == RefRecs(NonBlank(lines), decl, cols)
+HasPre(decl) == "pre" \in DOMAIN decl /\ decl.pre
+RefPre(ls, decl, cols) ==
+  IF HasPre(decl) /\ ls # <<>> /\ StartsWith(ls[1], "H")
+    THEN LET foots == SelectSeq([i \in 1..Len(ls) |-> i], LAMBDA i : StartsWith(ls[i], "F"))
+         IN IF foots = <<>> THEN RefRecs(ls, decl, cols)                       \* no footer: the leading declaration does not match
+            ELSE LET n == foots[1]
+                     r == RefRecs(SubSeq(ls, n + 1, Len(ls)), decl, cols)
+                 IN [recs |-> <<RefCols(SubSeq(ls, 1, n), cols)>> \o r.recs, end |-> r.end]
+    ELSE RefRecs(ls, decl, cols)
+
+Ref(lines, decl, cols) == RefPre(NonBlank(lines), decl, cols)
+\* the first record of Ref is an instance of the leading declaration
+PreMatched(lines, decl) ==
+  LET ls == NonBlank(lines) IN HasPre(decl) /\ ls # <<>> /\ StartsWith(ls[1], "H") /\ \E i \in 1..Len(ls) : StartsWith(ls[i], "F")
 
 -----------------------------------------------------------------------------
-(* Impl: state [src, records, buf, out, end, bad]                           *)
+(* Impl: state [src, records, buf, out, end, bad, phase]                    *)
 (*   src: lines not yet read; records: flat field slice; buf: Seq([start,   *)
-(*   num]) 0-based start as in the code                                     *)
-IInit(lines) == [src |-> lines, records |-> <<>>, buf |-> <<>>, out |-> <<>>, end |-> "run", bad |-> ""]
+(*   num, raw]) 0-based start as in the code; raw = the line's text as      *)
+(*   cached by the first header / footer / line_pattern match on it (<<>> = *)
+(*   not cached yet; the code caches the joined string, the model the field *)
+(*   sequence); phase: "pre" while the leading declaration is current       *)
+IInit(lines, decl) == [src |-> lines, records |-> <<>>, buf |-> <<>>, out |-> <<>>, end |-> "run", bad |-> "",
+                       phase |-> IF HasPre(decl) THEN "pre" ELSE "main"]
 
 RECURSIVE SkipBlank(_)
 SkipBlank(src) == IF src # <<>> /\ src[1] = <<>> THEN SkipBlank(Tail(src)) ELSE src
@@ -65,18 +87,21 @@ ReadLine(s) ==
   LET src == SkipBlank(s.src)
   IN IF src = <<>> THEN <<FALSE, [s EXCEPT !.src = <<>>]>>
      ELSE <<TRUE, [s EXCEPT !.src = Tail(src),
-                            !.buf = Append(@, [start |-> Len(s.records), num |-> Len(src[1])]),
+                            !.buf = Append(@, [start |-> Len(s.records), num |-> Len(src[1]), raw |-> <<>>]),
                             !.records = @ \o src[1]]>>
 
 \* the fields of buffered line i as the code addresses them: records[start + k - 1] (0-based slice => 1-based here start + k)
 BufLine(s, i) == [k \in 1..s.buf[i].num |-> s.records[s.buf[i].start + k]]
+\* what a regexp match on buffered line i looks at (line.raw, computed on first use), and the caching itself
+RawOf(s, i) == IF s.buf[i].raw # <<>> THEN s.buf[i].raw ELSE BufLine(s, i)
+Touch(s, i) == [s EXCEPT !.buf[i].raw = RawOf(s, i)]
 
 \* linesToNode(decl, n)
 ToCols(s, n, cols) ==
   LET RECURSIVE PerCol(_)
       PerCol(c) ==
         IF c > Len(cols) THEN <<>>
-        ELSE LET hits == SelectSeq([i \in 1..n |-> i], LAMBDA i : ColLineOK(cols[c], i, BufLine(s, i)))
+        ELSE LET hits == SelectSeq([i \in 1..n |-> i], LAMBDA i : ColLineOK(cols[c], i, RawOf(s, i)))
              IN (IF hits = <<>> THEN <<>>
                  ELSE LET b == s.buf[hits[1]]
                       IN << <<c, IF cols[c].idx < 1 \/ cols[c].idx > b.num THEN "" ELSE s.records[b.start + cols[c].idx]>> >>)
@@ -90,7 +115,7 @@ PopFront(s, n) ==
       sh == Shift(1)
   IN IF n > Len(s.buf) THEN [s EXCEPT !.bad = "popFrontLinesBuf: fewer lines than requested"]
      ELSE [s EXCEPT !.records = SubSeq(@, sh + 1, Len(@)),
-                    !.buf = [i \in 1..(Len(s.buf) - n) |-> [start |-> s.buf[i + n].start - sh, num |-> s.buf[i + n].num]]]
+                    !.buf = [i \in 1..(Len(s.buf) - n) |-> [s.buf[i + n] EXCEPT !.start = @ - sh]]]     \* the whole struct moves
 
 RECURSIVE FillRows(_, _)
 \* readAndMatchRowsBasedRecord's loop: read until `rows` lines are buffered
@@ -98,8 +123,9 @@ FillRows(s, rows) == IF Len(s.buf) >= rows THEN <<TRUE, s>> ELSE LET r == ReadLi
 
 RECURSIVE FindFooter(_, _, _)
 \* readAndMatchHeaderFooterBasedRecord's loop: i is 1-based index of the line tried as footer
-FindFooter(s, i, hasFooter) ==
-  IF ~hasFooter \/ StartsWith(BufLine(s, i), "F") THEN <<i, s>>
+FindFooter(s0, i, hasFooter) ==
+  LET s == IF hasFooter THEN Touch(s0, i) ELSE s0 IN
+  IF ~hasFooter \/ StartsWith(RawOf(s, i), "F") THEN <<i, s>>
   ELSE IF i >= Len(s.buf)
     THEN LET r == ReadLine(s) IN IF r[1] THEN FindFooter(r[2], i + 1, hasFooter) ELSE <<0, r[2]>>
     ELSE FindFooter(s, i + 1, hasFooter)
@@ -109,24 +135,31 @@ Step(s0, decl, cols) ==
   LET more == IF s0.buf # <<>> THEN <<TRUE, s0>> ELSE ReadLine(s0)         \* MoreUnprocessedData
       s == more[2]
   IN IF ~more[1] THEN [s EXCEPT !.end = "eof"]
+     ELSE IF s.phase = "pre"
+       THEN \* the leading header/footer declaration (min 0, max 1): whatever happens, the repeated one is next
+            IF ~StartsWith(RawOf(s, 1), "H") THEN [Touch(s, 1) EXCEPT !.phase = "main"]
+            ELSE LET f == FindFooter(Touch(s, 1), 1, TRUE)
+                 IN IF f[1] = 0 THEN [f[2] EXCEPT !.phase = "main"]                \* everything read stays buffered
+                    ELSE LET t == f[2] IN [PopFront([t EXCEPT !.out = Append(@, ToCols(t, f[1], cols))], f[1]) EXCEPT !.phase = "main"]
      ELSE IF decl.kind = "rows"
        THEN LET f == FillRows(s, decl.rows)
             IN IF ~f[1] THEN [f[2] EXCEPT !.end = "unexpected"]
                ELSE LET t == f[2] IN PopFront([t EXCEPT !.out = Append(@, ToCols(t, decl.rows, cols))], decl.rows)
-       ELSE IF ~StartsWith(BufLine(s, 1), "H") THEN [s EXCEPT !.end = "unexpected"]
-            ELSE LET f == FindFooter(s, 1, decl.footer)
+       ELSE IF ~StartsWith(RawOf(s, 1), "H") THEN [s EXCEPT !.end = "unexpected"]
+            ELSE LET f == FindFooter(Touch(s, 1), 1, decl.footer)
                  IN IF f[1] = 0 THEN [f[2] EXCEPT !.end = "unexpected"]
                     ELSE LET t == f[2] IN PopFront([t EXCEPT !.out = Append(@, ToCols(t, f[1], cols))], f[1])
 
 RECURSIVE RunFrom(_, _, _)
 RunFrom(s, decl, cols) == IF s.end # "run" \/ s.bad # "" THEN s ELSE RunFrom(Step(s, decl, cols), decl, cols)
-Run(lines, decl, cols) == RunFrom(IInit(lines), decl, cols)
+Run(lines, decl, cols) == RunFrom(IInit(lines, decl), decl, cols)
 
 \* buffer bookkeeping stays consistent: line i starts where line i-1 ended, everything inside `records`
 OffsetsConsistent(s) ==
   /\ \A i \in 1..Len(s.buf) : s.buf[i].start = (IF i = 1 THEN 0 ELSE s.buf[i - 1].start + s.buf[i - 1].num)
   /\ (s.buf # <<>> => s.buf[Len(s.buf)].start + s.buf[Len(s.buf)].num = Len(s.records))
   /\ (s.buf = <<>> => s.records = <<>>)
+  /\ \A i \in 1..Len(s.buf) : s.buf[i].raw \in {<<>>, BufLine(s, i)}          \* a cached text is the line's own text
 
 -----------------------------------------------------------------------------
 (* fixed-length column slicing (flatfile/fixedlength/decl.go:33-56): a line is a sequence of runes *)
